@@ -86,11 +86,33 @@ class Evaluator:
         env = {}
         for p, a in zip(func["params"], args):
             env[p["id"]] = a
+        self._last_env = env
         try:
             self.block(func["body"], env, this)
         except Ret as r:
+            self._last_env = env
             return r.v
+        self._last_env = env
         return None
+
+    def copy_out(self, params, arg_nodes, callee_env, env, this):
+        """non-const reference parameters of scalar type: what the callee left in them is written back to the caller's lvalue"""
+        for p, a in zip(params, arg_nodes):
+            t = (p.get("t") or "").strip()
+            if not t.endswith("&") or t.endswith("&&") or t.startswith("const ") or " const &" in t:
+                continue
+            if p["id"] not in callee_env:
+                continue
+            v = callee_env[p["id"]] if not isinstance(callee_env, LayerEnv) else dict.get(callee_env, p["id"])
+            if isinstance(v, (int, bool)) or v is None:
+                u = a
+                while isinstance(u, dict) and u.get("k") == "cast":
+                    u = u["e"]
+                if isinstance(u, dict) and u.get("k") in ("ref", "mem"):
+                    try:
+                        self.store(u, v, env, this)
+                    except Broken:
+                        pass
 
     def construct(self, func, this, args):
         """run a constructor: member initialisers (stored as attributes of `this`), then the body"""
@@ -115,10 +137,13 @@ class Evaluator:
         env = LayerEnv(c.env)
         for p, a in zip(c.node["params"], args):
             dict.__setitem__(env, p["id"], a)
+        self._last_env = env
         try:
             self.block(c.node["body"], env, c.this)
         except Ret as r:
+            self._last_env = env
             return r.v
+        self._last_env = env
         return None
 
     def block(self, s, env, this):
@@ -230,8 +255,19 @@ class Evaluator:
                 labels = []
                 while isinstance(st, dict) and st.get("k") in ("case", "default"):
                     if st["k"] == "case":
-                        lo = st["lo"].get("iv", st["lo"].get("v"))
-                        hi = st["hi"].get("iv", st["hi"].get("v")) if st.get("hi") else lo
+                        def lab(x):
+                            r = x.get("iv", x.get("v"))
+                            if r is None:
+                                r = self.eval(x, env, this)
+                                if isinstance(r, tuple) and r and r[0] == "enum":
+                                    r = r[2]
+                            if isinstance(r, str):
+                                r = int(r)
+                            if r is None:
+                                raise Broken("case label without a compile-time value at %s" % st.get("l"))
+                            return r
+                        lo = lab(st["lo"])
+                        hi = lab(st["hi"]) if st.get("hi") else lo
                         labels.append((lo, hi))
                     else:
                         labels.append("default")
@@ -417,7 +453,9 @@ class Evaluator:
                 callee = self.eval(e["a"][0], env, this)
                 args = [self.eval(a, env, this) for a in e["a"][1:]]
                 if isinstance(callee, Closure):
-                    return self.call_closure(callee, args)
+                    r_ = self.call_closure(callee, args)
+                    self.copy_out(callee.node["params"], e["a"][1:], self._last_env, env, this)
+                    return r_
                 if callable(callee):
                     return callee(self, args)
                 raise Broken("call through an object the evaluator does not model at %s" % e.get("l"))
@@ -463,9 +501,13 @@ class Evaluator:
                 callee = self.prog.funcs[e["fid"]]
                 obj = self.eval(e["obj"], env, this) if e.get("obj") is not None else None
                 args = [self.eval(a, env, this) for a in e.get("a", [])]
+                anodes = e.get("a", [])
                 if obj is None and e.get("op") and e.get("ismethod") and not e.get("static") and args:
                     obj, args = args[0], args[1:]      # member operator written infix
-                return self.call(callee, obj, args)
+                    anodes = anodes[1:]
+                r_ = self.call(callee, obj, args)
+                self.copy_out(callee["params"], anodes, self._last_env, env, this)
+                return r_
             raise Broken("comparator calls %s, for which the abstract domain has no summary (at %s)" % (f or e.get("fn"), e.get("l")))
         raise Broken("comparator uses an expression kind the evaluator does not model: %s" % k)
 
